@@ -439,6 +439,8 @@ def reaction_sweep(res: Result, counter: list[int]) -> dict[str, Any]:
                 g = w.loop.create_future()
                 gates.append(g)
                 return await g
+            if start_mode == "raises":
+                raise RuntimeError("application start handler failed")
             return 6000
 
         async def h_stop(abort: bool) -> None:
@@ -461,7 +463,7 @@ def reaction_sweep(res: Result, counter: list[int]) -> dict[str, Any]:
         return w, gates
 
     for noise in (False, True):
-        for start_mode in ("answers", "busy"):
+        for start_mode in ("answers", "busy", "raises"):
             w, gates = session(noise, start_mode)
             try:
                 for name in order:
